@@ -142,21 +142,36 @@ theorem dirs_nil_origin (mode : Mode) (hm : mode ≠ .local) (M : Mat) (g : Int)
       | «local» => exact hm rfl
 
 
+/-- the first column of a finished trace was a recorded direction of the cell it leads to -/
+def FirstStep (mode : Mode) (M : Mat) (g : Int) (a b : Seq) (p0 : Nat × Nat) : Aln → Prop
+  | [] => True
+  | c :: _ => valOf mode M g a b (adv p0 c).1 (adv p0 c).2 = valOf mode M g a b p0.1 p0.2 + costOf mode M g a b p0 c ∧
+      traceDirs mode M g a b (valOf mode M g a b) (adv p0 c) ≠ []
+
 /-- what a finished trace below cell `p` looks like: a walk ending in `p`, started where the trace table has no
 bits, scoring the value of `p`, followed by the columns collected so far -/
 def GoodTr (mode : Mode) (M : Mat) (g : Int) (a b : Seq) (p : Nat × Nat) (suffix aln : Aln) : Prop :=
   ∃ pre p0, aln = pre ++ suffix ∧ walk p0 pre = some p ∧
     scorePos (costOf mode M g a b) p0 pre = valOf mode M g a b p.1 p.2 ∧
-    traceDirs mode M g a b (valOf mode M g a b) p0 = []
+    traceDirs mode M g a b (valOf mode M g a b) p0 = [] ∧
+    FirstStep mode M g a b p0 pre
 
 theorem good_step (mode : Mode) (M : Mat) (g : Int) (a b : Seq) (p : Nat × Nat) (d : Dir) (suffix aln : Aln)
     (hd : d ∈ traceDirs mode M g a b (valOf mode M g a b) p)
     (h : GoodTr mode M g a b (d.pred p) (d.col p :: suffix) aln) : GoodTr mode M g a b p suffix aln := by
-  obtain ⟨pre, p0, he, hw, hs, h0⟩ := h
+  obtain ⟨pre, p0, he, hw, hs, h0, hf⟩ := h
   obtain ⟨hstep, hval⟩ := dir_step mode M g a b p d hd
-  refine ⟨pre ++ [d.col p], p0, by simp [he], ?_, ?_, h0⟩
+  refine ⟨pre ++ [d.col p], p0, by simp [he], ?_, ?_, h0, ?_⟩
   · rw [walk_append, hw]; simp [walk, hstep]
   · rw [scorePos_append _ p0 (d.pred p) pre [d.col p] hw, hs, hval]; simp [scorePos]
+  · cases pre with
+    | nil =>
+      simp [walk] at hw
+      subst hw
+      have hq := stepPos_adv hstep
+      simp only [List.nil_append, FirstStep, ← hq]
+      exact ⟨hval, fun hnil => by rw [hnil] at hd; simp at hd⟩
+    | cons c r => exact hf
 
 theorem runBranches_all (mx : Nat) (run : Dir → Nat → List Aln × Nat) (P : Aln → Prop) (ds : List Dir)
     (h : ∀ d ∈ ds, ∀ c, ∀ x ∈ (run d c).1, P x) : ∀ c, ∀ x ∈ (runBranches mx run ds c).1, P x := by
@@ -186,7 +201,7 @@ theorem followLin_good (mode : Mode) (M : Mat) (g : Int) (a b : Seq) (mx : Nat) 
     split at hx
     · rename_i hnil
       simp at hx; subst hx
-      exact ⟨[], p, rfl, rfl, by simp [scorePos, dirs_nil_zero mode M g a b p hnil], hnil⟩
+      exact ⟨[], p, rfl, rfl, by simp [scorePos, dirs_nil_zero mode M g a b p hnil], hnil, trivial⟩
     · rename_i d0 ds hds
       simp only [List.mem_append] at hx
       rcases hx with hx | hx
